@@ -275,7 +275,10 @@ func (t *Task) removeFromQueues() {
 	}
 }
 
-func (t *Task) runWithLocking() {
+// runWithLocking starts the task, if possible. If queued is set, the execution
+// occupies the queue slot: the queue handler will wait for it before starting
+// the next queued task. It must only be set by the queue handler itself.
+func (t *Task) runWithLocking(queued bool) {
 	t.lock.Lock()
 
 	// we will not attempt execution, remove from queues
@@ -337,6 +340,14 @@ func (t *Task) runWithLocking() {
 			t.lock.Unlock()
 			return
 		}
+	}
+
+	// Overdue tasks started by the schedule handler run beside the queue. They
+	// must not touch queueWg, as calling Add concurrently with the queue
+	// handler's Wait is a misuse of the WaitGroup that can panic.
+	if !queued {
+		go t.executeWithLocking()
+		return
 	}
 
 	// add to queue workgroup
@@ -523,7 +534,7 @@ func taskQueueHandler() {
 			// value -> Task
 			t := e.Value.(*Task) //nolint:forcetypeassert // Can only be *Task.
 			// run
-			t.runWithLocking()
+			t.runWithLocking(true)
 		}
 	}
 }
@@ -574,7 +585,7 @@ func taskScheduleHandler() {
 				t.overtime = false
 				scheduleLock.Unlock()
 
-				t.runWithLocking()
+				t.runWithLocking(false)
 			} else {
 				// place in front of prioritized queue
 				t.overtime = true
